@@ -62,7 +62,7 @@ def main (args : List String) : IO UInt32 := do
     pure 0
   | ["l2", fam, seed, from_, count] =>
     let lawful := fam == "lawRun"
-    if fam != "cmpRun" && fam != "lawRun" then
+    if !["cmpRun", "lawRun", "cloneRun", "opsRun"].contains fam then
       IO.eprintln s!"unknown l2 family {fam}"; return 2
     let seed := seed.toNat!
     let from_ := from_.toNat!
@@ -73,16 +73,28 @@ def main (args : List String) : IO UInt32 := do
     let mut mods : List String := []
     let mut stats : List String := []
     for i in [from_ : from_ + count] do
-      let c := genCmpRunCase lawful seed i
       let m := s!"c{i}"
-      let (body, exp) := cmpRunProgram lawful c m
+      let (c, body, exp) :=
+        if fam == "cloneRun" then
+          let c := genCloneRunCase seed i
+          let (b, e) := cloneRunProgram c m
+          (c, b, e)
+        else if fam == "opsRun" then
+          let c := genOpsRunCase seed i
+          let (b, e) := opsRunProgram c m
+          (c, b, e)
+        else
+          let c := genCmpRunCase lawful seed i
+          let (b, e) := cmpRunProgram lawful c m
+          (c, b, e)
+      if body.isEmpty then continue
       progs := body :: progs
       exps := exps ++ exp
       mods := m :: mods
-      stats := stats ++ (cmpRunStats c).map (fun t => s!"STAT {m} {t}")
+      stats := stats ++ ((if fam == "cloneRun" || fam == "opsRun" then c.tags else cmpRunStats c).map (fun t => s!"STAT {m} {t}"))
       stats := stats ++ [s!"SRC {m} {rustItem c}".replace "\n" " "]
     out.putStrLn "PROGRAM"
-    out.putStr (if lawful then l2PreludeLawful else l2Prelude)
+    out.putStr (if fam == "cloneRun" || fam == "opsRun" then l2PreludeBasic else if lawful then l2PreludeLawful else l2Prelude)
     for p in progs.reverse do out.putStr p
     out.putStrLn ("fn main() { " ++ " ".intercalate (mods.reverse.map fun m => m ++ "::run();") ++ " }")
     out.putStrLn "EXPECT"
